@@ -290,10 +290,19 @@ class _Run(object):
                     rt.add(k)
                 self.model[kidx] = v
             elif kidx in self.model:
-                if self.mapping:
-                    del rt[k]
-                else:
-                    rt.remove(k)
+                try:
+                    if self.mapping:
+                        del rt[k]
+                    else:
+                        rt.remove(k)
+                except KeyError:
+                    raise Violation(
+                        {"oracle": "mutator", "impl": self.impl,
+                         "kind": self.kind, "what": "KeyError",
+                         "who": "other-client"},
+                        "another client (fresh connection) does not find "
+                        "key %r, which the mutations so far imply and this "
+                        "client committed" % (k,))
                 del self.model[kidx]
         rc.commit()
         if rc.hazards:
